@@ -1,4 +1,5 @@
 import WK.Proofs.Repl_Owner
+import WK.Gen.C04
 /-
   C04 — a deposed or fenced authority cannot acknowledge appends.
   Theorems about the very `step` / `install` / `commit` the C04 driver executes
@@ -324,5 +325,56 @@ theorem c04_admitted_terminate (q : Nat) (comps : List (Bool × Comp)) :
                  · exact ih _
 
 example : countVotes 2 {} [(true, .durable), (false, .unknown), (false, .durable)] = (true, .durable) := by decide
+
+end WK.C04
+
+/-! ## T tie: compareAuthorityID and ValidateMeta regenerated from the source -/
+namespace WK.C04
+open WK WK.Repl WK.Gen.C04
+
+/-- **c04_cmp_translated** — the model's authority order IS the source's compareAuthorityID: the
+    regenerated field list is (ChannelEpoch, LeaderTerm, FenceVersion) in this order and the
+    regenerated loop over exactly these pairs equals `cmpAuth`. -/
+theorem c04_cmp_translated (l r : AuthId) :
+    cmpFields = ["ChannelEpoch", "LeaderTerm", "FenceVersion"] ∧
+    cmpAuth l r = lexCmp [(l.epoch, r.epoch), (l.term, r.term), (l.fence, r.fence)] := by
+  refine ⟨rfl, ?_⟩
+  simp only [cmpAuth, lexCmp]
+  repeat' split
+  all_goals first | rfl | omega
+
+example : lexCmp [(1, 1), (2, 3), (9, 0)] = .lt := by decide
+
+/-- **c04_machine_meta** — ChannelState.ValidateMeta (regenerated from pkg/channel/machine/meta.go)
+    rejects `stale`: an epoch regression, a leader-epoch regression within the epoch, and a leader
+    switch within one (epoch, leader epoch); and it accepts only metadata whose (epoch, leaderEpoch)
+    is not below the state's, with the same leader when both are equal, a sane MinISR, and matching
+    key / id. -/
+theorem c04_machine_meta (s : St) (m : Meta) :
+    (m.epoch < s.epoch → validateMeta s m = "stale") ∧
+    (m.epoch = s.epoch → m.leaderEpoch < s.leaderEpoch → validateMeta s m = "stale") ∧
+    (m.epoch = s.epoch → m.leaderEpoch = s.leaderEpoch → m.leader ≠ s.leader → validateMeta s m = "stale") ∧
+    (validateMeta s m = "ok" →
+      (s.epoch < m.epoch ∨ (s.epoch = m.epoch ∧ (s.leaderEpoch < m.leaderEpoch ∨
+        (s.leaderEpoch = m.leaderEpoch ∧ s.leader = m.leader)))) ∧
+      0 < m.minISR ∧ m.minISR ≤ m.isrLen ∧ m.keyMismatch = false ∧ m.idMismatch = false) := by
+  refine ⟨?_, ?_, ?_, ?_⟩
+  · intro h; unfold validateMeta; repeat' split
+    all_goals first | rfl | omega
+  · intro h1 h2; unfold validateMeta; repeat' split
+    all_goals first | rfl | omega
+  · intro h1 h2 h3; unfold validateMeta; repeat' split
+    all_goals first | rfl | omega
+  · intro h
+    unfold validateMeta at h
+    repeat' (split at h)
+    all_goals first | (simp at h; done) | skip
+    all_goals
+      rename_i hk hi h3 h4 h5
+      refine ⟨by omega, by omega, by omega, by simpa using hk, by simpa using hi⟩
+
+example : validateMeta ⟨3, 5, 1⟩ ⟨false, false, 3, 5, 2, 2, 3⟩ = "stale" ∧
+    validateMeta ⟨3, 5, 1⟩ ⟨false, false, 3, 6, 2, 2, 3⟩ = "ok" ∧
+    validateMeta ⟨3, 5, 1⟩ ⟨false, false, 2, 9, 1, 2, 3⟩ = "stale" := by decide
 
 end WK.C04
